@@ -1,1 +1,284 @@
-fn main() { eprintln!("engine not built yet"); std::process::exit(2); }
+//! protox — C10 / C11: explicit-state search of the replicated write path (stateright), with the
+//! per-node transition code taken from the repository where it is a plain data structure, and a
+//! conformance replay of model traces against the real replica-side actors.
+mod conform;
+#[allow(dead_code)]
+#[path = "../../clusterx/src/cx.rs"]
+mod cx;
+mod model;
+
+use std::collections::BTreeSet;
+use std::sync::{Arc, Mutex};
+use std::time::{Duration, Instant};
+
+use model::{Act, Budget, Cfg, Msg, Proto, S};
+use serde_json::{Value, json};
+use stateright::{Checker, Model};
+use vcommon::{Args, Ctx};
+
+fn configs(thorough: bool) -> Vec<(&'static str, Cfg)> {
+    let b = |drops, dups, crashes, views, catchups, timeouts| Budget { drops, dups, crashes, views, catchups, timeouts };
+    let mut v = vec![
+        // fault-free reorderings with catch-up, two and three writes
+        ("3 nodes, 2 single-event writes, reordering + catch-up", Cfg { n: 3, tx_lens: vec![1, 1], max: b(0, 0, 0, 0, 1, 0), buffer_limit: 1000, submit_at: vec![], catchup_appends_anywhere: false }),
+        ("3 nodes, 2 writes (2+1 events), 1 view change, catch-up", Cfg { n: 3, tx_lens: vec![2, 1], max: b(0, 0, 0, 1, 1, 0), buffer_limit: 1000, submit_at: vec![], catchup_appends_anywhere: false }),
+        if thorough {
+            ("3 nodes, 3 single-event writes, 1 view change, catch-up", Cfg { n: 3, tx_lens: vec![1, 1, 1], max: b(0, 0, 0, 1, 1, 0), buffer_limit: 1000, submit_at: vec![], catchup_appends_anywhere: false })
+        } else {
+            ("3 nodes, 3 single-event writes submitted at node 0 or 1, 1 view change, catch-up", Cfg { n: 3, tx_lens: vec![1, 1, 1], max: b(0, 0, 0, 1, 1, 0), buffer_limit: 1000, submit_at: vec![0, 1], catchup_appends_anywhere: false })
+        },
+        ("3 nodes, 2 writes, 1 drop, 1 duplicate, 1 timeout", Cfg { n: 3, tx_lens: vec![1, 1], max: b(1, 1, 0, 0, 1, 1), buffer_limit: 1000, submit_at: vec![], catchup_appends_anywhere: false }),
+        ("3 nodes, 2 writes, 1 crash/restart, 1 view change", Cfg { n: 3, tx_lens: vec![1, 1], max: b(0, 0, 1, 1, 1, 0), buffer_limit: 1000, submit_at: vec![], catchup_appends_anywhere: false }),
+        ("2 nodes, 2 writes, 1 view change, 1 timeout", Cfg { n: 2, tx_lens: vec![1, 2], max: b(0, 0, 0, 1, 1, 1), buffer_limit: 1000, submit_at: vec![], catchup_appends_anywhere: false }),
+    ];
+    // the largest configuration last, so that it can use the rest of the budget
+    let big = v.remove(2);
+    v.push(big);
+    if thorough {
+        v.push(("3 nodes, 3 writes (1,2,1), 2 view changes, 1 crash, catch-up", Cfg { n: 3, tx_lens: vec![1, 2, 1], max: b(0, 0, 1, 2, 1, 0), buffer_limit: 1000, submit_at: vec![], catchup_appends_anywhere: false }));
+        v.push(("3 nodes, 3 writes, 1 drop, 1 duplicate, 1 view change, 1 timeout, catch-up", Cfg { n: 3, tx_lens: vec![1, 1, 1], max: b(1, 1, 0, 1, 1, 1), buffer_limit: 1000, submit_at: vec![], catchup_appends_anywhere: false }));
+        v.push(("3 nodes, 3 writes, buffer of 1, 1 view change, 2 catch-ups", Cfg { n: 3, tx_lens: vec![1, 1, 1], max: b(0, 0, 0, 1, 2, 0), buffer_limit: 1, submit_at: vec![], catchup_appends_anywhere: false }));
+    }
+    v
+}
+
+pub fn act_json(a: &Act) -> Value {
+    serde_json::to_value(a).unwrap_or(Value::Null)
+}
+
+fn describe(a: &Act) -> String {
+    match a {
+        Act::Submit { tx, at } => format!("client submits T{tx} at node {at}"),
+        Act::Deliver(m) => format!("deliver {}", msg(m)),
+        Act::Drop(m) => format!("drop {}", msg(m)),
+        Act::Dup(m) => format!("duplicate {}", msg(m)),
+        Act::Timeout { node, tx } => format!("coordinator {node} times out on T{tx}"),
+        Act::Crash(n) => format!("node {n} crashes"),
+        Act::Restart(n) => format!("node {n} restarts"),
+        Act::Suspect { node, peer } => format!("node {node} times out node {peer}"),
+        Act::Learn { node, peer } => format!("node {node} hears from node {peer}"),
+        Act::CatchUp(n) => format!("node {n}'s gap timer fires (catch-up request)"),
+    }
+}
+
+fn msg(m: &Msg) -> String {
+    match m {
+        Msg::Forward { to, tx, hops } => format!("ExecuteTransaction(T{tx}) forwarded to node {to} (hop {hops})"),
+        Msg::Replicate { to, coord, tx, first, .. } => format!("ReplicateWrite(T{tx} @ {first}) from coordinator {coord} to node {to}"),
+        Msg::Reply { to, from, tx, ok } => format!("reply {} for T{tx} from node {from} to coordinator {to}", if *ok { "Ok" } else { "Err" }),
+        Msg::Confirm { to, tx, first, count } => format!("ConfirmTransaction(T{tx} @ {first}, count {count}) to node {to}"),
+        Msg::SyncReq { to, from, from_seq, to_seq } => format!("PartitionSyncRequest({from_seq}..={to_seq}) from node {from} to coordinator {to}"),
+        Msg::SyncResp { to, commits } => format!("PartitionSyncResponse({:?}) to node {to}", commits.iter().map(|(t, f, c)| format!("T{t}@{f} count {c}")).collect::<Vec<_>>()),
+    }
+}
+
+struct CfgResult {
+    name: &'static str,
+    unique: usize,
+    generated: usize,
+    max_depth: usize,
+    done: bool,
+    secs: f64,
+    discoveries: Vec<(String, Vec<Act>, S)>,
+    sometimes_missing: Vec<String>,
+}
+
+fn check_cfg(name: &'static str, cfg: Cfg, cap: Duration, visit: Option<Arc<Mutex<BTreeSet<conform::Projection>>>>) -> CfgResult {
+    let t0 = Instant::now();
+    let m = Proto(cfg.clone());
+    let mut b = m.checker().threads(vcommon::jobs()).timeout(cap);
+    if let Some(set) = visit {
+        let cfg2 = cfg.clone();
+        b = b.visitor(move |path: stateright::Path<S, Act>| {
+            let acts: Vec<(S, Option<Act>)> = path.into_vec();
+            for p in conform::project(&cfg2, &acts) {
+                set.lock().unwrap().insert(p);
+            }
+        });
+    }
+    let c = b.spawn_bfs().join();
+    let mut discoveries = Vec::new();
+    let mut sometimes_missing = Vec::new();
+    let model = Proto(cfg);
+    for p in model.properties() {
+        let d = c.discovery(p.name);
+        match p.expectation {
+            stateright::Expectation::Always | stateright::Expectation::Eventually => {
+                if let Some(path) = d {
+                    let last = path.last_state().clone();
+                    discoveries.push((p.name.to_string(), path.into_actions(), last));
+                }
+            }
+            stateright::Expectation::Sometimes => {
+                if d.is_none() {
+                    sometimes_missing.push(p.name.to_string());
+                }
+            }
+        }
+    }
+    CfgResult { name, unique: c.unique_state_count(), generated: c.state_count(), max_depth: c.max_depth(), done: c.is_done() && t0.elapsed() < cap, secs: t0.elapsed().as_secs_f64(), discoveries, sometimes_missing }
+}
+
+fn main() {
+    vcommon::install_quiet_panic_hook();
+    let args: Args = vcommon::parse_args();
+    let prop = args.property.clone();
+    if prop != "C10" && prop != "C11" {
+        vcommon::machinery_fail("protox serves C10 and C11");
+    }
+    let thorough = args.tier.is_thorough();
+    let mut ctx = Ctx::new(&prop, args.tier, "model_checking");
+    if let Some(path) = &args.replay {
+        ctx.replay_mode = true;
+        let case = vcommon::load_replay(path);
+        replay(&ctx, &prop, &case);
+        ctx.finish(json!({"replay": path.display().to_string()}), vec![]);
+    }
+    let cap_total = Duration::from_secs(if thorough { 1200 } else { 40 });
+    // model parameters that are measured on the real code rather than transcribed
+    let catchup_anywhere = conform::probe_catchup_appends_anywhere();
+    let cfgs: Vec<(&'static str, Cfg)> = configs(thorough).into_iter().map(|(n, mut c)| { c.catchup_appends_anywhere = catchup_anywhere; (n, c) }).collect();
+    let t_start = Instant::now();
+    let projections: Arc<Mutex<BTreeSet<conform::Projection>>> = Default::default();
+    let mut rows = Vec::new();
+    let (mut states, mut transitions) = (0usize, 0usize);
+    let mut exhaustive = true;
+    let mut determinism_checked = Vec::new();
+    let wanted_prefix = if prop == "C10" { "C10" } else { "C11" };
+    let mut counterexamples: Vec<(String, &'static str, Vec<Act>, S)> = Vec::new();
+    for (name, cfg) in cfgs {
+        // every configuration may use what is left of the total budget (most need a fraction of a second)
+        let per = cap_total.saturating_sub(t_start.elapsed()).max(Duration::from_secs(3));
+        let r = check_cfg(name, cfg.clone(), per, Some(projections.clone()));
+        // determinism: the first configuration is searched twice and the counts compared
+        if determinism_checked.is_empty() {
+            let r2 = check_cfg(name, cfg.clone(), per, None);
+            if r.done && r2.done && (r.unique != r2.unique || r.max_depth != r2.max_depth) {
+                vcommon::machinery_fail(&format!("the model is not deterministic: {} vs {} unique states", r.unique, r2.unique));
+            }
+            determinism_checked.push(json!({"configuration": name, "unique_states_run_1": r.unique, "unique_states_run_2": r2.unique}));
+        }
+        states += r.unique;
+        transitions += r.generated;
+        exhaustive &= r.done;
+        for s in &r.sometimes_missing {
+            if r.done && (s == "some write acknowledged") {
+                vcommon::machinery_fail(&format!("vacuous model: `{s}` is unreachable in configuration {name}"));
+            }
+        }
+        rows.push(json!({"configuration": r.name, "unique_states": r.unique, "states_generated": r.generated, "max_depth": r.max_depth, "complete": r.done, "seconds": r.secs,
+            "reachability_checks_not_reached": r.sometimes_missing, "counterexamples": r.discoveries.iter().map(|d| d.0.clone()).collect::<Vec<_>>()}));
+        for (pname, acts, last) in r.discoveries {
+            if pname.starts_with(wanted_prefix) {
+                counterexamples.push((pname, r.name, acts, last));
+            }
+        }
+    }
+    // conformance: replay the per-node projections of the explored traces (and of every counterexample)
+    // against the real replica-side actors
+    let mut projs: Vec<conform::Projection> = projections.lock().unwrap().iter().cloned().collect();
+    projs.sort_by_key(|p| (p.events.len(), p.clone()));
+    let max_traces = if thorough { 4000 } else { 400 };
+    let conf = conform::run(&ctx, &prop, &projs, max_traces);
+    // counterexamples: a model violation is reported only if its replica-side projection is confirmed by the
+    // real code (otherwise the model, not the repository, is wrong: machinery failure)
+    for (pname, cfgname, acts, last) in &counterexamples {
+        let what = if prop == "C10" { model::c10_violation(&Proto(cfg_by_name(cfgname, thorough)), last).or_else(|| model::prefix_violation(last)) } else { model::c11_violation(&Proto(cfg_by_name(cfgname, thorough)), last) };
+        let trace: Vec<String> = acts.iter().map(describe).collect();
+        let confirmed = conform::confirm_counterexample(&cfg_by_name(cfgname, thorough), acts);
+        let key_kind = classify(acts);
+        match confirmed {
+            Ok(detail) => ctx.violation(
+                &format!("{prop}/{key_kind}"),
+                &format!("{} [{cfgname}] - {}; model trace ({} steps): {}; replayed against the real replicator: {detail}", what.clone().unwrap_or_default(), pname, trace.len(), trace.join(" -> ")),
+                json!({"configuration": cfgname, "property": pname, "actions": acts.iter().map(act_json).collect::<Vec<_>>()}),
+            ),
+            Err(e) => vcommon::machinery_fail(&format!("a model counterexample for `{pname}` is not reproduced by the real code ({e}); trace: {}", trace.join(" -> "))),
+        }
+    }
+    let coverage = json!({
+        "states": states,
+        "transitions": transitions,
+        "traces_validated_against_impl": conf.replayed,
+        "samples": rows.iter().take(3).cloned().chain(conf.samples.iter().cloned()).collect::<Vec<_>>(),
+        "exhaustive": exhaustive,
+        "configurations": rows,
+        "determinism": determinism_checked,
+        "model_parameters_measured_on_the_code": {"catch_up_response_appends_wherever_the_log_ends": catchup_anywhere},
+        "conformance": {
+            "distinct_per_node_projections_collected": projs.len(),
+            "replayed_against_real_replicator": conf.replayed,
+            "agreed": conf.agreed,
+            "selection": format!("shortest first, at most {max_traces}"),
+            "events_replayed": conf.events,
+        },
+        "bounds": "per configuration: nodes, client writes (events each), message drops, duplicates, crashes, membership-view changes, catch-up requests, coordinator timeouts - see `configuration` names; messages are delivered in any order",
+        "what_states_are": "distinct global states (per node: up, incarnation, log with counts, replicator queue, confirmation state, membership view, coordinator bookkeeping; in-flight message multiset; client outcomes; fault budget used)",
+    });
+    ctx.finish(
+        coverage,
+        vec![
+            "C10/C11 are decided on a model: a real multi-node run is impossible here (one ClusterActor per process, mDNS-only discovery)".into(),
+            "bound to the code by (1) real OrderedQueue / PartitionConfirmationState / ExpectedVersion inside the transitions, (2) replay of the per-node projections of explored traces against the real PartitionReplicatorActor + Database, (3) every counterexample must be reproduced by the real replicator before it is reported".into(),
+            "not bound: the reply counting inside transaction::run and the membership protocol (transcribed); a change confined to them is visible only through re-transcription".into(),
+        ],
+    )
+}
+
+fn cfg_by_name(name: &str, thorough: bool) -> Cfg {
+    let mut c = configs(true).into_iter().chain(configs(thorough)).chain(configs(false)).find(|(n, _)| *n == name).map(|(_, c)| c).unwrap_or_else(|| vcommon::machinery_fail("unknown configuration"));
+    c.catchup_appends_anywhere = conform::probe_catchup_appends_anywhere();
+    c
+}
+
+/// Class signature of a counterexample (which mechanisms it needs).
+fn classify(acts: &[Act]) -> String {
+    let mut parts = Vec::new();
+    if acts.iter().any(|a| matches!(a, Act::Deliver(Msg::SyncResp { .. }))) {
+        parts.push("catch-up-response");
+    }
+    if acts.iter().any(|a| matches!(a, Act::Suspect { .. } | Act::Learn { .. })) {
+        parts.push("divergent-view");
+    }
+    if acts.iter().any(|a| matches!(a, Act::Crash(_))) {
+        parts.push("crash");
+    }
+    if acts.iter().any(|a| matches!(a, Act::Drop(_))) {
+        parts.push("drop");
+    }
+    if acts.iter().any(|a| matches!(a, Act::Dup(_))) {
+        parts.push("duplicate");
+    }
+    if acts.iter().any(|a| matches!(a, Act::Timeout { .. })) {
+        parts.push("timeout");
+    }
+    if parts.is_empty() {
+        parts.push("reordering-only");
+    }
+    parts.join("+")
+}
+
+fn replay(ctx: &Ctx, prop: &str, case: &Value) {
+    let name = case["configuration"].as_str().unwrap_or("");
+    let cfg = cfg_by_name(name, true);
+    let acts: Vec<Act> = case["actions"].as_array().map(|a| a.iter().filter_map(|v| serde_json::from_value(v.clone()).ok()).collect()).unwrap_or_default();
+    // re-execute the action list on the model
+    let m = Proto(cfg.clone());
+    let mut s = m.init_states().remove(0);
+    for a in &acts {
+        let mut en = Vec::new();
+        m.actions(&s, &mut en);
+        if !en.contains(a) {
+            vcommon::machinery_fail(&format!("replay diverged: action {a:?} is not enabled"));
+        }
+        s = m.next_state(&s, a.clone()).unwrap_or_else(|| vcommon::machinery_fail("replay diverged: no next state"));
+    }
+    let what = if prop == "C10" { model::c10_violation(&m, &s).or_else(|| model::prefix_violation(&s)) } else { model::c11_violation(&m, &s) };
+    match what {
+        None => println!("replay: the recorded trace no longer violates the property on the model built from the current tree"),
+        Some(w) => match conform::confirm_counterexample(&cfg, &acts) {
+            Ok(detail) => ctx.violation(&format!("{prop}/{}", classify(&acts)), &format!("{w}; replayed against the real replicator: {detail}"), case.clone()),
+            Err(e) => println!("replay: the model still violates the property ({w}) but the real replicator does not reproduce the trace: {e}"),
+        },
+    }
+}
